@@ -339,14 +339,20 @@ def _model_identity(h):
         "opt.timestep": (float(lmod.opt.timestep), float(gm.opt.timestep)),
         "opt.gravity": (np.asarray(lmod.opt.gravity).tolist(), np.asarray(gm.opt.gravity).tolist()),
         "opt.integrator": (int(lmod.opt.integrator), int(gm.opt.integrator)),
-        "opt.solver": (int(lmod.opt.solver), int(gm.opt.solver)),
         "opt.cone": (int(lmod.opt.cone), int(gm.opt.cone)),
-        "opt.iterations": (int(lmod.opt.iterations), int(gm.opt.iterations)),
+        "opt.impratio": (float(lmod.opt.impratio), float(gm.opt.impratio)),
+        "opt.wind": (np.asarray(lmod.opt.wind).tolist(), np.asarray(gm.opt.wind).tolist()),
+        "opt.enableflags": (int(lmod.opt.enableflags), int(gm.opt.enableflags)),
         "opt.disableflags": (int(lmod.opt.disableflags), int(gm.opt.disableflags)),
         "opt.viscosity": (float(lmod.opt.viscosity), float(gm.opt.viscosity)),
         "opt.density": (float(lmod.opt.density), float(gm.opt.density)),
         "frame_skip": (int(h.env.frame_skip), int(h.gd.frame_skip)),
     }
+    numerics = {k: (getattr(lmod.opt, k), getattr(gm.opt, k)) for k in
+                ("solver", "iterations", "ls_iterations", "tolerance", "ls_tolerance", "noslip_iterations", "jacobian")}
+    differing = {k: {"lerax": float(a), "gymnasium": float(b)} for k, (a, b) in numerics.items() if a != b}
+    if differing:
+        ctx.notes["numerical_method_options_differing_from_gymnasium"] = differing
     for k, (got, want) in statics.items():
         ctx.monitor("static_attributes_compared")
         if got != want:
@@ -468,7 +474,19 @@ def _weight_scale(h):
     return max([1.0, 1.25] + w)
 
 
-def _judge_outputs(h, tag, got, want, tol, detail, keys):
+def _provenance(values, fields):
+    """Which data arrays contain these numbers (diagnostic only: e.g. got in xipos, want in xpos)."""
+    out = []
+    for v in list(values)[:6]:
+        if not np.isfinite(v) or v == 0:
+            out.append([])
+            continue
+        out.append([n for n, a in fields.items() if n not in ("qpos", "qvel")
+                    and np.any(np.abs(a - v) <= 2e-7 * (1 + abs(v)))][:6])
+    return out
+
+
+def _judge_outputs(h, tag, got, want, tol, detail, keys, fields=None):
     """got/want = (obs, reward, terminated, info).  keys maps output -> violation key.  Returns #mismatches."""
     ctx = h.ctx
     atol, rtol, vel_extra = tol
@@ -477,6 +495,9 @@ def _judge_outputs(h, tag, got, want, tol, detail, keys):
     ctx.monitor(f"{tag}_observation_compared")
     if not ok:
         nbad += 1
+        if fields is not None and "got" in d:
+            d = {**d, "got_values_found_in_data_arrays": _provenance(d["got"], fields),
+                 "want_values_found_in_data_arrays": _provenance(d["want"], fields)}
         h.viol(keys["obs"], {"monitor": tag, "output": "observation", **d, **detail})
     comp_bad = []
     for k in _info_pairs(want[3], got[3]):
@@ -539,22 +560,42 @@ def _ambiguous_boundary(h, before, after, action, lterm, first_true=None):
     return bool(lterm) in seen or len(seen) > 1
 
 
+_CLEARANCE = 0.02
+
+
 def _contact_trace(h, qpos, qvel, action):
-    """ncon at reset and after each sub-step of the C engine, on a private MjData (classification only)."""
+    """Classification only, on a private copy of the model whose geom margins are widened by _CLEARANCE:
+    number of geom pairs within margin + clearance at the start, after each sub-step of the C engine and at
+    the positions extrapolated half a / one time-step ahead (where the RK4 stages of either engine evaluate
+    their contacts: a contact that exists only inside a stage never shows in data.ncon after mj_step)."""
+    import copy
+
     import mujoco
 
-    m = h.gd.model
-    if "_scratch_data" not in h.__dict__:
-        h._scratch_data = mujoco.MjData(m)
-    d = h._scratch_data
+    if "_scratch" not in h.__dict__:
+        m = copy.copy(h.gd.model)
+        m.geom_margin[:] = m.geom_margin + _CLEARANCE
+        h._scratch = (m, mujoco.MjData(m), mujoco.MjData(m))
+    m, d, dp = h._scratch
     mujoco.mj_resetData(m, d)
     d.qpos[:] = qpos
     d.qvel[:] = qvel
     mujoco.mj_forward(m, d)
     ncon = [int(d.ncon)]
-    nefc = [int(d.nefc)]
+    nefc = [int(d.nefc) - 0]
     d.ctrl[:] = action
+    hstep = float(m.opt.timestep)
+
+    def probe(frac):
+        dp.qpos[:] = d.qpos
+        mujoco.mj_integratePos(m, dp.qpos, d.qvel, frac * hstep)
+        mujoco.mj_kinematics(m, dp)
+        mujoco.mj_collision(m, dp)
+        return int(dp.ncon)
+
     for _ in range(int(h.gd.frame_skip)):
+        ncon.append(probe(0.5))
+        ncon.append(probe(1.0))
         mujoco.mj_step(m, d)
         ncon.append(int(d.ncon))
         nefc.append(int(d.nefc))
@@ -620,6 +661,8 @@ def _run_config(h, nkeys, nsteps, nlift):
             if not ok_f:
                 h.viol("mj-observation-formula", {"monitor": "reset/formula-on-lerax-data", **d_f, **wit})
             if not ok_fr:
+                d_fr = {**d_fr, "got_values_found_in_data_arrays": _provenance(d_fr.get("got", []), true_fields),
+                        "want_values_found_in_data_arrays": _provenance(d_fr.get("want", []), true_fields)}
                 h.viol("mj-observation-formula", {"monitor": "reset/formula-on-C-data", **d_fr, **wit})
             if not ok_d:
                 stale = [n for n in h.plan if not np.allclose(l0[n], true_fields[n], atol=1e-4, rtol=1e-4)
@@ -673,7 +716,7 @@ def _run_config(h, nkeys, nsteps, nlift):
                 if not amb:
                     ctx.case({"env": name, "config": h.label, "key": kidx, "step": t, "monitor": "formula"},
                              nontrivial=bool(np.any(a != 0)), cls=f"formula/{cls_step}/{akind}")
-                    _judge_outputs(h, "formula", got, want, (1e-4, 1e-5, 0.0), wit, _FKEYS)
+                    _judge_outputs(h, "formula", got, want, (1e-4, 1e-5, 0.0), wit, _FKEYS, fields=after)
                     track("formula_obs", lobs, want[0])
                     track("formula_reward", lrew, want[1])
                     ctx.monitor("terminated_true_steps" if want[2] else "terminated_false_steps")
@@ -712,7 +755,7 @@ def _run_config(h, nkeys, nsteps, nlift):
                 ns.sim_state._impl.contact.dist) else np.inf
             ldist0 = float(np.min(np.asarray(s.sim_state._impl.contact.dist))) if (
                 np.size(s.sim_state._impl.contact.dist) and not first and not (lifted and t == 0)) else np.inf
-            contact_free = max(ncon) == 0 and min(ldist, ldist0) > 1e-3
+            contact_free = max(ncon) == 0 and min(ldist, ldist0) > _CLEARANCE
 
             if not lifted:
                 # M2r: lerax's formulas on the C engine's data
@@ -737,7 +780,7 @@ def _run_config(h, nkeys, nsteps, nlift):
                              nontrivial=bool(np.any(a != 0)),
                              cls=f"formula-on-C-data/{'contact' if max(ncon) else 'no-contact'}")
                     _judge_outputs(h, "formula_rev", rgot, (gobs, grew, gterm, ginfo), (2e-4, 1e-5, vel_extra),
-                                   {**wit, "ncon_trace": ncon}, _FKEYS)
+                                   {**wit, "ncon_trace": ncon}, _FKEYS, fields=c_after)
                     track("formula_rev_obs", rgot[0], gobs)
                     track("formula_rev_reward", rgot[1], grew)
 
@@ -764,7 +807,8 @@ def _run_config(h, nkeys, nsteps, nlift):
             else:
                 ctx.case(desc, nontrivial=True, cls=f"data/contact/{cls_step}")
                 ctx.monitor("data_fidelity_inconclusive_by_contact")
-                track("data_obs_contact_steps_informational", lobs, gobs)
+                track("data_qpos_contact_steps_informational", after["qpos"], c_after["qpos"])
+                track("data_qvel_contact_steps_informational", after["qvel"], c_after["qvel"])
                 if reads_cfrc and max(ncon) > 0:
                     contact_stats["steps"] += 1
                     gnz = bool(np.any(c_after["cfrc_ext"]))
@@ -876,7 +920,7 @@ def run_mujoco_unit(name, ctx):
     ctx.require("formula_rev_observation_compared", 10)
     ctx.require("first_step_true_kinematics_compared", 3)
     ctx.require("reset_support_samples", 64)
-    if env_name in ("Reacher", "Swimmer", "InvertedPendulum", "InvertedDoublePendulum", "Ant", "Humanoid", "Pusher") or (
+    if env_name in ("Reacher", "Swimmer", "InvertedPendulum", "InvertedDoublePendulum", "Ant", "Humanoid") or (
             env_name in _ROOT_Z):
         ctx.require("data_fidelity_contact_free_steps", 3)
     if env_name in ("Ant", "Humanoid", "HumanoidStandup") and not ctx.quick:
